@@ -159,7 +159,7 @@ func hyphenate(field string) string {
 	return b.String()
 }
 
-func runC15(p *Program, r *Report) {
+func runC15Shape(p *Program, r *Report) {
 	engineConsistency(p, r, "C15.E", func(n string) bool { return strings.Contains(n, "safehtml.") })
 
 	r.Trusted = []string{"go/types + go/ssa", "fmt %s copies a string operand verbatim; %06X prints at least six upper-case hex digits", "CSS Syntax 3 (paper): a value over the documented alphabet, a double-quoted string without raw \" \\ newline, and the constant frames tokenize to one declaration per group and contain no '<'"}
